@@ -23,7 +23,7 @@ NaiveLen(n) == ((n * 11 * 32) \div 33) \div 8
 IdxFromBuffer(ent, n) ==
   LET all == ent \o Sha256(ent)
       f(p) == BBit(all, p)
-  IN  [i \in 1..n |-> BitsVal(f, 11 * (i - 1), 11, 0)]
+  IN  Mat([i \in 1..n |-> BitsVal(f, 11 * (i - 1), 11, 0)])
 
 JoinWith(idx, sep) ==
   LET RECURSIVE go(_)
